@@ -24,6 +24,8 @@ type KubeScheduler struct {
 	Period time.Duration
 	PBind  float64
 	Bound  int
+	GiveUp time.Duration // pods pending longer than this are deleted by their owner (0 = never)
+	OnGiveUp func(*corev1.Pod)
 	// InterPod, when set, additionally filters bindings by the inter-pod model.
 	InterPod func(pod *corev1.Pod, node *ModelNode, all []*ModelNode) bool
 }
@@ -102,6 +104,14 @@ func (ks *KubeScheduler) tick() {
 		ready[n.Name] = nodeIsReady(n) && n.DeletionTimestamp == nil && !n.Spec.Unschedulable
 	}
 	for _, p := range pending {
+		if ks.GiveUp > 0 && s.Now().Sub(p.CreationTimestamp.Time) > ks.GiveUp {
+			if ks.OnGiveUp != nil {
+				ks.OnGiveUp(p)
+			}
+			_ = st.Delete(p, DeleteOpts{}, nil)
+			s.Stat("env.pod.givenup")
+			continue
+		}
 		var cands []*ModelNode
 		for _, n := range nodes {
 			if !ready[n.Name] {
